@@ -281,7 +281,6 @@ Definition deviation_witnesses : list (string * list value) := [
   ("abc~{~5T~A~}", [ints [1]]);                                       (* column inside a block *)
   ("abc~2,4T|", []);                                                  (* ~colnum,colincT *)
   ("~T|", []);
-  ("~{~A~}}", [ints [1]]);                                            (* a brace after the block *)
   ("~{~2{~A~}|~}", [VList [ints [1; 2; 3]; ints [4; 5; 6]]]);         (* nested block with a parameter *)
   ("~{~{~A~:}|~}", [VList [ints [1]; ints [2]]]);                     (* nested ~:} *)
   ("~:(~A~)", [VStr (tx "2nd")]);                                     (* words that start with a digit *)
@@ -292,8 +291,7 @@ Proof. vm_compute. reflexivity. Qed.
 (* what the model and the specification say for some of them *)
 Definition deviation_table : list ((string * list value) * (outcome * outcome)) := [
   (("~{~A~^,~}", [ints [1; 2; 3]]), (OText (tx "1,"), OText (tx "1,2,3")));
-  (("abc~2,4T|", []), (OText (tx "abc     |"), OText (tx "abc   |")));
-  (("~{~A~}}", [ints [1]]), (OText (tx "1"), OText (tx "1}")))
+  (("abc~2,4T|", []), (OText (tx "abc     |"), OText (tx "abc   |")))
 ]%Z.
 Lemma deviation_values : map (fun e => both (fst e)) deviation_table = map snd deviation_table.
 Proof. vm_compute. reflexivity. Qed.
